@@ -373,7 +373,7 @@ def cells_part(tier):
                     'every cell of GSC180, NANGATE, NANGATE_ZN, SAED32, SAED90 (one representative per distinct implementation and pin table in quick tier, every name in '
                     'thorough) instantiated with all pins connected, and with every subset of connected pins for cells with <= 4 pins (sampled subsets above): resolve must not '
                     'raise, wf holds, port/state names and order unchanged, no library cell remains, and the observed function equals the instance semantics '
-                    '(z3 over symbolic inputs through the hierarchical spec evaluator); distinct = (library, implementation, connected pins)',
+                    '(z3 over symbolic inputs through the hierarchical spec evaluator); plus netlists of several instances with 0..12 empty-implementation cells (fillers) before / between / after three chained logic cells; distinct = (library, implementation, connected pins)',
                     'all cells x pin subsets as stated', exhaustive=(tier == 'thorough'))
     rng = random.Random(5)
     for libname in ('GSC180', 'NANGATE', 'NANGATE_ZN', 'SAED32', 'SAED90'):
@@ -403,7 +403,71 @@ def cells_part(tier):
                         key = f'bounded:C10:{clause}:latch-cell-without-latch-in-its-name'
                     b.violation(key, f'{libname}.{kind} inputs {sorted(ci)} outputs {sorted(co)}: {msg}', 'bounded.graph_drv:run_cell',
                                 {'lib': libname, 'kind': kind, 'conn_in': sorted(ci), 'conn_out': sorted(co)}, function='kyupy.circuit.Circuit.substitute')
+    # several instances in one netlist: cells with an empty implementation (fillers, decaps: resolving removes them and re-numbers the node list) listed before,
+    # between and after logic cells that feed each other
+    for libname in ('GSC180', 'NANGATE', 'NANGATE_ZN', 'SAED32', 'SAED90'):
+        lib = getattr(techlib, libname)
+        empty = [k for k, (impl, pins) in lib.cells.items() if len(pins) == 0 and len(impl.nodes) == 0]
+        logic_cells = [k for k, (impl, pins) in lib.cells.items() if sum(1 for p, (i, o) in pins.items() if o) == 1 and 1 <= sum(1 for p, (i, o) in pins.items() if not o) <= 3
+                       and not any('dff' in x.kind.lower() or 'latch' in x.kind.lower() for x in impl.nodes)]
+        if not logic_cells:
+            continue
+        for nfill, where in ((0, 'front'), (3, 'front'), (12, 'front'), (5, 'mixed'), (9, 'back')):
+            if nfill and not empty:
+                continue
+            args = {'lib': libname, 'nfill': nfill, 'where': where, 'seed': rng.randrange(1 << 30)}
+            c = multi_instance_circuit(lib, empty, logic_cells, nfill, where, random.Random(args['seed']))
+            b.case((libname, 'multi', nfill, where), True, sample={'lib': libname, 'fillers': nfill, 'placement': where, 'nodes': len(c.nodes)})
+            for clause, msg in check_resolve(c, lib):
+                b.violation(f'bounded:C10:{clause}:multi-instance', f'{libname} netlist with {nfill} empty cells ({where}): {msg}', 'bounded.graph_drv:run_multi', args,
+                            function='kyupy.circuit.Circuit.resolve_tlib_cells')
     return b
+
+
+def multi_instance_circuit(lib, empty, logic_cells, nfill, where, rng):
+    from kyupy.circuit import Circuit, Node, Line
+    c = Circuit('multi')
+    fills = [rng.choice(empty) for _ in range(nfill)] if empty else []
+    kinds = [rng.choice(logic_cells) for _ in range(3)]
+    plan = {'front': fills + kinds, 'back': kinds + fills}.get(where)
+    if plan is None:
+        plan = kinds + fills
+        rng.shuffle(plan)
+    srcs = []
+    k = 0
+    for kind in plan:
+        k += 1
+        u = Node(c, f'u{k}', kind)
+        if kind in fills and kind in empty and len(lib.cells[kind][1]) == 0:
+            continue
+        pins = lib.cells[kind][1]
+        ins = [p for p, (i, o) in sorted(pins.items(), key=lambda kv: kv[1][0]) if not o]
+        for j, p in enumerate(ins):
+            if srcs and rng.random() < 0.5:
+                f = rng.choice(srcs)
+            else:
+                i = Node(c, f'i{k}_{p}', 'input')
+                c.io_nodes.append(i)
+                f = Node(c, f'n{k}_{p}')
+                Line(c, i, f)
+            Line(c, f, (u, j))
+        f = Node(c, f'z{k}')
+        Line(c, (u, 0), f)
+        o = Node(c, f'o{k}', 'output')
+        c.io_nodes.append(o)
+        Line(c, f, o)
+        srcs.append(f)
+    return c
+
+
+def run_multi(args):
+    lib = lib_by_name(args['lib'])
+    empty = [k for k, (impl, pins) in lib.cells.items() if len(pins) == 0 and len(impl.nodes) == 0]
+    logic_cells = [k for k, (impl, pins) in lib.cells.items() if sum(1 for p, (i, o) in pins.items() if o) == 1 and 1 <= sum(1 for p, (i, o) in pins.items() if not o) <= 3
+                   and not any('dff' in x.kind.lower() or 'latch' in x.kind.lower() for x in impl.nodes)]
+    c = multi_instance_circuit(lib, empty, logic_cells, args['nfill'], args['where'], random.Random(args['seed']))
+    v = check_resolve(c, lib)
+    return {'reproduced': bool(v), 'violated': v}
 
 
 # ------------------------------------------------------------------------------------------------------------ C10 transformations
